@@ -1015,8 +1015,9 @@ let c19_lr = function
         | None -> (false, false, false)
         | Some ann ->
           let (nl, rk) = LRTerm.find_acyclic_cert g2' in
-          let srk = LRTerm.find_stack_ranks g2' tb' nl ann in
-          (LRValidate.lr_safe_check g2' tb' ann, LRTerm.acyclic_ok g2' nl rk, LRTerm.stack_rank_ok g2' tb' nl ann srk)) in
+          let eset = LRTerm.find_eps_set g2' tb' nl in
+          let srk = LRTerm.find_stack_ranks nl ann eset in
+          (LRValidate.lr_safe_check g2' tb' ann, LRTerm.acyclic_ok g2' nl rk, LRTerm.stack_rank_ok g2' tb' nl ann eset srk)) in
     let cert = (cert_parts = (true, true, true)) in
     let cert_txt = (match cert_parts with (a, b, c) -> Printf.sprintf "validator:%b acyclic:%b stack-ranks:%b" a b c) in
     let cyc = cyclic g0 in
